@@ -21,8 +21,9 @@ ATTR = {'xa': 'a', 'xc': 'c', 'xn': '{urn:x}a'}
 class Doc:
     """One concrete document built from an abstract tree, with both directions of the map."""
 
-    def __init__(self, parent: tuple, kind: tuple, lib: str):
+    def __init__(self, parent: tuple, kind: tuple, lib: str, nsmap: dict | None = None):
         self.parent, self.kind, self.lib = parent, kind, lib
+        nsmap = NS if nsmap is None else nsmap      # declarations on the document element (lxml only)
         n = len(parent)
         mod = ET if lib == 'etree' else LX
         self.obj2id: dict[int, int] = {}       # id(python object) -> abstract id
@@ -49,7 +50,7 @@ class Doc:
                 if p == 0:
                     # lxml: p and q are declared on the document element (in scope everywhere); xml.etree has no
                     # namespace declarations: the caller passes the same map as `namespaces=`
-                    el = mod.Element(ELEM[k], nsmap=NS) if lib == 'lxml' else mod.Element(ELEM[k])
+                    el = mod.Element(ELEM[k], nsmap=nsmap) if lib == 'lxml' else mod.Element(ELEM[k])
                     for x in pre_root:
                         el.addprevious(x)
                 else:
